@@ -317,8 +317,49 @@ def maybe_unbound(fn) -> List[Tuple[ast.Name, int, str]]:
                 IN2 = _flow(cfg, locs, frozenset(skip))
                 if n.id in IN2["visited"] and u.id not in IN2[n.id]:  # type: ignore[index]
                     continue
+            if _accumulator_witness(fn, cfg, IN, n.id, u.id):
+                continue
             out.append((u, n.id, "no assignment on some branch-only path from the function entry"))
     return out
+
+
+_FILLERS = ("collect_error", "collect_errors", "append", "extend", "add", "update", "insert", "setdefault")
+
+
+def _accumulator_witness(fn, cfg: CFG, IN, nid: int, var: str) -> bool:
+    """The read executes only when a local accumulator is non-empty (`if acc:` / `if handler.schema_errors:`), the
+    accumulator is created once, and every statement that fills it runs with `var` definitely assigned: a non-empty
+    accumulator is then a witness that the assignment happened."""
+    for test, pol in cfg.guards(nid):
+        if not pol:
+            continue
+        for a in (test.values if isinstance(test, ast.BoolOp) and isinstance(test.op, ast.And) else [test]):
+            base = a
+            if isinstance(base, ast.Attribute):
+                base = base.value
+            if not isinstance(base, ast.Name):
+                continue
+            acc = base.id
+            creations = [x for x in walk_no_nested(fn) if isinstance(x, ast.Name) and x.id == acc and isinstance(x.ctx, ast.Store)]
+            if len(creations) != 1:
+                continue
+            fills = []
+            for m in cfg.nodes:
+                if m.ast is None or m.kind != "stmt":
+                    continue
+                for x in walk_no_nested(m.ast):
+                    if isinstance(x, ast.Call) and isinstance(x.func, ast.Attribute) and isinstance(x.func.value, ast.Name) \
+                            and x.func.value.id == acc and x.func.attr in _FILLERS:
+                        fills.append(m.id)
+                    elif isinstance(x, ast.Subscript) and isinstance(x.ctx, ast.Store) and isinstance(x.value, ast.Name) and x.value.id == acc:
+                        fills.append(m.id)
+            if fills and all(var not in IN[i] for i in fills):
+                # the accumulator must not escape to code that could fill it elsewhere (passed as an argument)
+                escaped = any(isinstance(x, ast.Call) and any(isinstance(g, ast.Name) and g.id == acc for g in list(x.args) + [k.value for k in x.keywords])
+                              for x in walk_no_nested(fn))
+                if not escaped:
+                    return True
+    return False
 
 
 def check_modules(ctx, rule: str, prefixes, consequence: str, floor: int = 5):
